@@ -37,101 +37,9 @@ def handle_ownership(P, R):
     def is_dec(c):
         return au.call_name(c) == 'decref'
     # constructor: exactly one count on every normal path, taken after the
-    # validation
-    bad = None
-    npaths = 0
-    for path in pa.function_paths(init.node):
-        kind = pa.exit_kind(path)
-        n = count_calls(path, is_inc)
-        if kind in ('fall', 'return'):
-            npaths += 1
-            if n != 1:
-                bad = (path, f'takes {n} reference(s) instead of one')
-        elif kind == 'raise' and n:
-            # a rejection of the very node whose incref just succeeded is
-            # infeasible (incref fails first for an unknown node)
-            inc_arg = None
-            feasible = False
-            for it in path:
-                if it[0] == 'stmt':
-                    for c in au.calls_in(it[1]):
-                        if is_inc(c) and c.args:
-                            inc_arg = au.src(c.args[0])
-                elif it[0] == 'test' and inc_arg is not None:
-                    t = it[1]
-                    same = isinstance(t, ast.Compare) and len(
-                        t.ops) == 1 and isinstance(
-                            t.ops[0], ast.NotIn) and au.src(
-                                t.left) == inc_arg and it[2] is True
-                    if not same:
-                        feasible = True
-            if feasible or inc_arg is None:
-                bad = (path, 'takes a reference and then raises: the '
-                             'count is never given back (no Function '
-                             'object exists)')
-    if bad:
-        R.violation('R-PAIR', 'handle-acquire', init.qualname, 'incref',
-                    f'Function.__init__ {bad[1]}', unit=init.unit.rel,
-                    line=init.lineno, path=pa.describe(bad[0]))
-    else:
-        R.holds('R-PAIR', init.qualname,
-                f'exactly one incref on each of {npaths} normal path(s), '
-                'none before a rejection')
-    # the node attribute is bound before/with the acquisition
-    text = au.src(init.node)
-    if 'self.node = node' not in text:
-        R.undecided('R-PAIR', init.qualname, 'node attribute',
-                    'assignment of self.node not recognised')
-    # finaliser: at most once
-    bad = None
-    released = 0
-    for path in pa.function_paths(dele.node):
-        n = count_calls(path, is_dec)
-        guard = None
-        cleared = False
-        dec_after_clear = None
-        for it in path:
-            if it[0] == 'test':
-                t = au.src(it[1]).replace(' ', '')
-                if t in ('self.nodeisNone', 'self.node==None'):
-                    guard = it[2]
-                elif t in ('self.nodeisnotNone',):
-                    guard = not it[2]
-            if it[0] == 'stmt':
-                s = it[1]
-                if isinstance(s, ast.Assign) and au.chain(
-                        s.targets[0]) == ['self', 'node'] and isinstance(
-                            s.value, ast.Constant) and s.value.value is None:
-                    cleared = True
-                for c in au.calls_in(s):
-                    if is_dec(c):
-                        arg = au.src(c.args[0]) if c.args else ''
-                        if cleared and 'self.node' in arg:
-                            dec_after_clear = c
-        if guard is True:
-            if n:
-                bad = (path, 'releases although the handle was already '
-                             'released')
-            continue
-        released += 1
-        if n != 1:
-            bad = (path, f'gives back {n} reference(s) instead of one')
-        elif guard is None:
-            bad = (path, 'is not guarded against a second invocation '
-                         '(`self.node is None`)')
-        elif not cleared:
-            bad = (path, 'does not clear `self.node`: a second invocation '
-                         'releases again')
-        elif dec_after_clear is not None:
-            bad = (path, 'passes the cleared attribute to decref')
-    if bad:
-        R.violation('R-PAIR', 'handle-release', dele.qualname, 'decref',
-                    f'Function.__del__ {bad[1]}', unit=dele.unit.rel,
-                    line=dele.lineno, path=pa.describe(bad[0]))
-    else:
-        R.holds('R-PAIR', dele.qualname,
-                'gives back exactly one reference, once (guard + clear)')
-    R.floor('R-PAIR releasing paths of Function.__del__', released, 1)
+    # acquisition and release: decided on a recording model manager
+    from . import models
+    models.handle_model(P, R)
     # copying a handle must not duplicate ownership
     cp = P.func('dd.autoref.Function.__copy__', required=False)
     if cp is None:
@@ -196,27 +104,8 @@ def handle_ownership(P, R):
 
 
 def shutdown_check(P, R):
-    f = P.func('dd.bdd.BDD.__del__')
-    order = []
-    for s in f.node.body:
-        for c in au.calls_in(s):
-            nm = au.call_name(c)
-            if nm == 'decref' and c.args and au.const_int(c.args[0]) == 1:
-                order.append(('terminal', s.lineno))
-            elif nm == 'collect_garbage':
-                order.append(('collect', s.lineno))
-            elif nm == 'any':
-                order.append(('check', s.lineno))
-    kinds = [k for k, _ in order]
-    if kinds[:3] == ['terminal', 'collect', 'check']:
-        R.holds('R-PAIR', f.qualname, "the terminal's own count is given "
-                'back and garbage collected before counts are examined')
-    else:
-        R.violation(
-            'R-PAIR', 'shutdown', f.qualname, 'order',
-            f'the shutdown check runs in the order {kinds}; it must '
-            "release the terminal's own count and collect before looking "
-            'for remaining references', unit=f.unit.rel, line=f.lineno)
+    from . import models
+    models.shutdown_model(P, R)
 
 
 def is_manager_recv(G, f, recv):
